@@ -267,21 +267,30 @@ def r5(ctx, cfg):
         arms.pop(arm[0] if arm else None, None)
     ctx.ob(R, QUERY, "all-balance-arms-present", not arms, "arms without ledger read: %s" % sorted(arms), fn=f, sample="all arms read BALANCES")
     # the single-denomination answer: the entry whose denom EQUALS the requested one, otherwise coin(0, denom)
-    finds = q.lexical_calls(F, QUERY, "std::iter::Iterator::find")
-    ok = len(finds) == 1
-    d = "no find"
+    # (`.find(|c| c.denom == denom)` is rewritten into its loop by vlib/inline.py A9, so it and a hand-written
+    # `for c in balance { if c.denom == denom { found = Some(c); break } }` are the same shape: the place where an element of
+    # get_balance(..) is picked, and the conditions on that element under which it happens)
+    picks = []
+    for g in F.lexical(QUERY):
+        for b0, i0, st0 in g.stmts():
+            if st0["k"] == "assign" and st0["rv"].get("k") == "aggregate" and st0["rv"].get("adt") == "std::option::Option" and st0["rv"].get("variant") == "Some":
+                e0 = peel(P.operand(g, st0["rv"]["ops"][0], (b0, i0)))
+                if e0[0] == "bound" and e0[1] == "elem" and contains(e0[2], lambda x: x[0] == "call" and x[1] == B + "get_balance"):
+                    picks.append((g, b0, i0, e0))
+    ok = len(picks) == 1
+    d = "%d places pick an element of the balance" % len(picks)
     if ok:
-        g, b, t = finds[0]
-        a = P.call_args(g, t, b)
-        src_ok = contains(a[0], lambda x: x[0] == "call" and x[1] == B + "get_balance")
-        cl = peel(a[1])
-        ok = src_ok and cl[0] == "closure"
+        g, b0, i0, e0 = picks[0]
+        ec = [c[1] for e, c in q.conditions_at(P, F, g, b0) if c[0] == "bool" and any(contains(x, lambda y: y[0] == "bound" and y[1] == "elem") for x in c[1][1])]
+        d = str([(p, [fmt(x)[:40] for x in a], pol) for p, a, pol in ec])
+        ok = len(ec) == 1
         if ok:
-            h = F.fn(cl[1])
-            pred, args, pol = q.norm_cond(P.ret(h), True)
-            d = "%s(%s) pol=%s" % (pred, ", ".join(fmt(x)[:40] for x in args), pol)
-            ok = pred == "eq" and pol is True and any(contains(x, lambda y: y[0] == "field" and y[2] == "denom" and peel(y[1])[0] in ("cparam", "bound")) for x in args) and \
+            pred, args, pol = ec[0]
+            ok = pred == "eq" and pol is True and any(peel(x)[0] == "field" and peel(x)[2] == "denom" and same_origin(peel(x)[1], e0) for x in args) and \
                 any(contains(x, lambda y: is_param_field(y, "request", "denom")) for x in args)
+        # the scan runs over all entries, front to back
+        lp = q.loops_yielding(P, g, e0)
+        ok = ok and len(lp) == 1 and not q.chain_adapters(lp[0][1])
     ctx.ob(R, QUERY, "Balance-selects-by-denom-equality", ok, "single-denomination balance is selected by %s" % d, fn=f, sample="find(|c| c.denom == denom)")
     dflt = q.lexical_calls(F, QUERY, "cosmwasm_std::coin")
     ok = False
